@@ -19,6 +19,7 @@ order-preserving maps, so equality and order in the driver are those of the real
 """
 import contextlib
 import copy
+import os
 import random
 
 import numpy
@@ -27,6 +28,11 @@ from .. import canon, compat, findings
 from ..core import Prop
 
 compat.install()
+
+# repair-validation mode: the tree under test has patches/C03_D14_D27.diff, patch_D14b.diff (and patch_D17b.diff) applied;
+# the square bundles' insert / incorp / concat are driven with BLOCK-shaped operands against the repaired model
+# (Model/LabelMatRepair.lean), DenseSquareTaxaTraitMatrix keeps every bundle, and no known finding is consulted for them
+REPAIRED = bool(os.environ.get("C03_REPAIRED"))
 
 NAN_CODE = -999999          # code of the NaN fill value of the square classes
 NONE_CODE = -1              # code of a `None` entry of an object-dtype name array (padding of absent names)
@@ -42,10 +48,14 @@ KINDS = ("taxa", "vrnt", "trait")
 # rendering of label codes (injective and monotone on the non-negative codes the generator uses)
 _OBJ_PREFIX = {"taxa": "t", "vrnt_name": "v", "vrnt_hapalt": "A", "vrnt_hapref": "R", "trait": "y"}
 _FLOAT_DIV = {"vrnt_genpos": 8.0, "vrnt_xoprob": 64.0}
+# every rendered float carries a tail far below float32 resolution: a pass through a narrower float type must show
+_FLOAT_TAIL = 2.0 ** -40
+_CELL_TAIL = 2.0 ** -30          # float64 data cells: code + 2^-30 (exact for |code| < 2^22)
+_CELL_OFFSET_INT64 = 5000000000  # int64 data cells: far outside int32
 
 
 # integer label columns are rendered far outside the int8 / int16 / int32 ranges (a narrowing cast must show)
-_INT_AFFINE = {"taxa_grp": (1000, 100000), "vrnt_chrgrp": (1000, 70000), "vrnt_hapgrp": (1000, 40000),
+_INT_AFFINE = {"taxa_grp": (1000, 3000000000), "vrnt_chrgrp": (1000, 5000000000), "vrnt_hapgrp": (1000, 7000000000),
                "vrnt_phypos": (100000007, 3000000000)}
 
 
@@ -69,7 +79,7 @@ def render_col(name, codes):
     if name in _OBJ_PREFIX:
         return numpy.array([None if c == NONE_CODE else _name_str(_OBJ_PREFIX[name], c) for c in codes], dtype=object)
     if name in _FLOAT_DIV:
-        return numpy.array([c / _FLOAT_DIV[name] for c in codes], dtype="float64")
+        return numpy.array([c / _FLOAT_DIV[name] + _FLOAT_TAIL for c in codes], dtype="float64")
     if name == "vrnt_mask":
         return numpy.array([bool(c) for c in codes], dtype=bool)
     if name in _INT_AFFINE:
@@ -98,7 +108,7 @@ def decode_col(name, arr):
         elif name in _OBJ_PREFIX:
             out.append(_name_code(name, x))
         elif name in _FLOAT_DIV:
-            v = float(x) * _FLOAT_DIV[name]
+            v = (float(x) - _FLOAT_TAIL) * _FLOAT_DIV[name]
             if v != int(v):
                 raise ValueError(f"label {x!r} in {name} was never created by the harness")
             out.append(int(v))
@@ -158,6 +168,9 @@ CLASSES = {
                                taxa=[], vrnt=[0], trait=[], dtype="float64"),
     "DenseTraitMatrix": dict(mod="pybrops.core.mat.DenseTraitMatrix", ndim=2,
                              taxa=[], vrnt=[], trait=[0], dtype="float64"),
+    # a second copy of the square mechanism: ONE trait bundle governing two axes (own *_trait methods, not inherited)
+    "DenseSquareTraitMatrix": dict(mod="pybrops.core.mat.DenseSquareTraitMatrix", ndim=2,
+                                   taxa=[], vrnt=[], trait=[0, 1], dtype="float64"),
 }
 _CLS_CACHE = {}
 
@@ -174,11 +187,16 @@ def schema(cname):
     d = CLASSES[cname]
     return {"ndim": d["ndim"], "taxa": d["taxa"], "vrnt": d["vrnt"], "trait": d["trait"],
             "generic_self_call": False, "scalar_insert_raw": False, "square_check": bool(d.get("square_check")),
-            "pure_drops_other": bool(d.get("pure_drops_other"))}
+            "pure_drops_other": bool(d.get("pure_drops_other")) and not REPAIRED}
+
+
+def is_square_k(cname, k):
+    """bundle `k` of the class governs more than one data axis"""
+    return len(CLASSES[cname][k]) > 1
 
 
 def is_square(cname):
-    return len(CLASSES[cname]["taxa"]) > 1
+    return any(is_square_k(cname, k) for k in KINDS)
 
 
 def kinds_of(cname):
@@ -212,8 +230,12 @@ def render_mat(cname, mat3, layout="C"):
             a = a[:, :, 0]
     if d["dtype"] == "float64":
         f = a.astype("float64")
+        if not d.get("bv"):
+            f = f + _CELL_TAIL
         f[a == NAN_CODE] = numpy.nan
         out = f
+    elif d["dtype"] == "int64":
+        out = a + _CELL_OFFSET_INT64
     else:
         out = a.astype(d["dtype"])
     if layout == "F":
@@ -235,9 +257,13 @@ def decode_mat(cname, arr):
             if not numpy.all(numpy.abs(codes - numpy.round(codes)) < 1e-6):
                 raise ValueError("unscaled breeding value is not the raw value of any taxon")
             codes = numpy.round(codes)
+        else:
+            codes = numpy.where(codes == float(NAN_CODE), codes, codes - _CELL_TAIL)
         if not numpy.all(codes == numpy.round(codes)):
             raise ValueError("non-integral cell value: data were computed on, not moved")
         a = codes.astype("int64")
+    elif d["dtype"] == "int64":
+        a = a.astype("int64") - _CELL_OFFSET_INT64
     else:
         a = a.astype("int64")
     if is_nd(cname):
@@ -360,10 +386,17 @@ def py_obj(o):
     """JSON index form -> the Python/numpy argument"""
     if "int" in o:
         return int(o["int"])
+    if "int0d" in o:
+        return numpy.array(int(o["int0d"]))          # a 0-d integer ndarray (numpy.insert treats it as a scalar)
+    if "npint" in o:
+        # a numpy integer scalar (what numpy.argmax / a loop over an index array hands over)
+        return numpy.dtype(o.get("dtype", "int64")).type(o["npint"])
     if "list" in o:
         return list(o["list"])
     if "array" in o:
-        return numpy.array(o["array"], dtype="int64")
+        return numpy.array(o["array"], dtype=o.get("dtype", "int64"))
+    if "boollist" in o:
+        return [bool(x) for x in o["boollist"]]        # a plain Python list of booleans (numpy.delete: a mask)
     if "slice" in o:
         return slice(*o["slice"])
     if "mask" in o:
@@ -371,9 +404,15 @@ def py_obj(o):
     raise ValueError(o)
 
 
-def drv_obj(o):
+def drv_obj(o, heap=False):
     if "array" in o:
         return {"list": o["array"]}
+    if "npint" in o:
+        return {"int": o["npint"]}
+    if "int0d" in o and (heap or REPAIRED):
+        return {"int": o["int0d"]}                # the heap model only tracks which arrays are shared
+    if "boollist" in o:
+        return {"mask": o["boollist"]}
     return o
 
 
@@ -437,15 +476,17 @@ class Runner:
         name, k = step["name"], step["kind"]
         generic = bool(step.get("generic"))
         sfx = "" if generic else "_" + k
-        akw = {"axis": step["axis"]} if generic else {}
+        akw = {"axis": step["axis"]} if (generic and not step.get("omit_axis")) else {}
         f = getattr(live, name + sfx) if name != "concat" else getattr(self.cls, name + sfx)
         if name == "select":
             idx = step["indices"]
             how = step.get("as_array")
             if how in (True, "int64"):
                 arg = numpy.array(idx, dtype="int64")
-            elif how == "int32":
-                arg = numpy.array(idx, dtype="int32")
+            elif how in ("int32", "int16", "uint8"):
+                arg = numpy.array(idx, dtype=how)
+            elif how == "npints":
+                arg = [numpy.int64(i) for i in idx]
             elif how == "tuple":
                 arg = tuple(idx)
             else:
@@ -458,13 +499,15 @@ class Runner:
             return "self", None, []
         if name == "reorder":
             how = step.get("as_array", True)
-            f(numpy.array(step["indices"], dtype="int32" if how == "int32" else "int64") if how else list(step["indices"]),
-              **akw)
+            f(numpy.array(step["indices"], dtype=how if how in ("int32", "int16") else "int64") if how
+              else list(step["indices"]), **akw)
             return "self", None, []
         if name in ("lexsort", "sort"):
             keys = step.get("keys")
             kw = dict(akw)
-            if keys is not None:
+            if keys is not None and step.get("keys_form") == "ndarray2d":
+                kw["keys"] = numpy.array(keys, dtype="int64")          # documented: "a (k, N) array or tuple"
+            elif keys is not None:
                 kw["keys"] = tuple(None if c is None else numpy.array(c, dtype="int64") for c in keys)
             elif generic:
                 kw["keys"] = None
@@ -608,6 +651,10 @@ def run_history(case):
     rn = Runner(cname)
     heap = Heap(cname)
     heap.add(build(cname, case["init"], case.get("layout", "C")))
+    # history of length 0: the object must carry exactly the data and labels it was created with
+    created = heap.snaps[0]
+    created_ok = (created["mat"] == case["init"]["mat"]
+                  and all(created[k]["cols"] == case["init"][k]["cols"] for k in KINDS))
     steps_out = []
     for si, step in enumerate(case["steps"]):
         rid = step.get("on")
@@ -689,7 +736,10 @@ def run_history(case):
         if step["name"] in ("adjoin", "append", "insert", "incorp", "concat") and step_form(step) != "raw":
             rec["operand_unchanged"] = not any(c["role"] == "operand" for c in rec["changed"])
         steps_out.append(rec)
-    return {"steps": steps_out}
+    out = {"steps": steps_out}
+    if not created_ok:
+        out["created"] = created
+    return out
 
 
 # ------------------------------------------------------------------------------------------------
@@ -764,8 +814,10 @@ class Gen:
             ln = {kk: rng.choice([1, 2]) for kk in KINDS}
             ln[k] = v
         shape = [1] * max(3, d["ndim"])
-        if d["ndim"] == 3 and 0 not in d["taxa"] + d["vrnt"] + d["trait"]:
-            shape[0] = rng.choice([1, 2, 2, 3])       # phase axis
+        for a in range(d["ndim"]):
+            if a not in d["taxa"] + d["vrnt"] + d["trait"]:
+                # an axis without labels (phase axis; the second axis of the single-bundle base classes)
+                shape[a] = rng.choice([1, 2, 2, 3])
         for k in KINDS:
             for a in d[k]:
                 shape[a] = ln[k]
@@ -808,19 +860,26 @@ class Gen:
         r = rng.random()
         if n <= 1:
             return {"list": []}, n
-        if r < 0.3:
+        if r < 0.22:
             o = {"int": self.rand_index(n)}
+        elif r < 0.3:
+            dt = rng.choice(["int64", "int32", "int16", "uint8"])
+            o = {"npint": rng.randrange(min(n, 200)) if dt == "uint8" else self.rand_index(n), "dtype": dt}
         elif r < 0.55:
             cnt = rng.randint(1, max(1, n - 1))
             o = {"list": [self.rand_index(n) for _ in range(cnt)]}
         elif r < 0.65:
             cnt = rng.randint(1, max(1, n - 1))
-            o = {"array": [self.rand_index(n) for _ in range(cnt)]}
+            dt = rng.choice(["int64", "int64", "int32", "int16", "uint8"])
+            o = {"array": [rng.randrange(min(n, 200)) if dt == "uint8" else self.rand_index(n) for _ in range(cnt)],
+                 "dtype": dt}
         elif r < 0.85:
             o = {"slice": [rng.choice([None, 0, 1, -1, -2, 2]), rng.choice([None, 1, 2, -1, n, n + 2]),
                            rng.choice([None, 1, 2, -1])]}
-        else:
+        elif r < 0.96:
             o = {"mask": [rng.random() < 0.4 for _ in range(n)]}
+        else:
+            o = {"boollist": [rng.random() < 0.4 for _ in range(n)]}
         left = len(numpy.delete(numpy.arange(n), py_obj(o)))
         if left == 0:
             return {"int": self.rand_index(n)}, n - 1
@@ -832,7 +891,14 @@ class Gen:
         r = rng.random()
         if r < 0.3:
             p = rng.randrange(n + 1)
-            return {"int": p - n if (rng.random() < 0.25 and p < n) else p}
+            p = p - n if (rng.random() < 0.25 and p < n) else p
+            if rng.random() < 0.3:
+                dt = rng.choice(["int64", "int32", "int16", "uint8"])
+                if not (dt == "uint8" and (p < 0 or p > 255)):
+                    return {"npint": p, "dtype": dt}
+            if self.ext_ins and rng.random() < 0.12:
+                return {"int0d": p}            # known defect D17b on a non-leading axis: keep it rare
+            return {"int": p}
         if r < 0.75 or q == 0:
             p = rng.randrange(n + 1)
             return {"list": [p - n if (rng.random() < 0.25 and p < n) else p]}
@@ -888,8 +954,10 @@ class Gen:
         if k == "trait":
             names = [x for x in names if x not in ("group", "ungroup", "is_grouped")]
         names = [x for x in names if x not in d.get("skip_ops", ())]
-        if is_square(self.cname) and k == "taxa":
-            # the single-axis edits of the square classes are a known defect (D14): keep them rare
+        if is_square_k(self.cname, k) and REPAIRED and is_nd(self.cname):
+            names = [x for x in names if x not in ("insert", "incorp", "concat")]     # no N-D model of the repair
+        elif is_square_k(self.cname, k) and not REPAIRED:
+            # the single-axis edits of the square classes are a known defect (D14 / D14b): keep them rare
             names = [x for x in names if x not in ("insert", "incorp", "concat")] * 3 + ["insert", "incorp", "concat"]
         if len(d["taxa"]) > 2 and k == "taxa" and n >= 4:
             names = [x for x in names if x not in ("adjoin", "append")]      # keep n ** r small
@@ -901,6 +969,10 @@ class Gen:
         axis = d[k][rng.randrange(len(d[k]))]
         ax = axis - d["ndim"] if rng.random() < 0.4 else axis
         st = {"name": name, "kind": k, "generic": rng.random() < 0.4, "axis": ax, "alt_axis": ax, "on": rid}
+        if axis == d["ndim"] - 1 and rng.random() < 0.35:
+            # the documented default of every axis-generic method is axis = -1: call it without the keyword
+            st["omit_axis"] = True
+            st["axis"] = st["alt_axis"] = -1
         new_len = None                        # length of axis k of the object the step leaves / returns
         if name == "select":
             cnt = rng.randint(1, n + 1)
@@ -909,7 +981,9 @@ class Gen:
             if n > 100:
                 cnt = rng.randint(n // 2, n)
             st["indices"] = [self.rand_index(n) for _ in range(cnt)]
-            st["as_array"] = rng.choice([False, True, True, "int32", "tuple"])
+            st["as_array"] = rng.choice([False, True, True, "int32", "tuple", "int16", "uint8", "npints"])
+            if st["as_array"] == "uint8":
+                st["indices"] = [i % n if n <= 256 else min(i % n, 255) for i in st["indices"]]
             new_len = cnt
         elif name in ("delete", "remove"):
             st["obj"], new_len = self.del_obj(n)
@@ -917,7 +991,7 @@ class Gen:
             p = list(range(n))
             rng.shuffle(p)
             st["indices"] = [i - n if rng.random() < 0.2 else i for i in p]
-            st["as_array"] = rng.choice([True, True, False, "int32"])
+            st["as_array"] = rng.choice([True, True, False, "int32", "int16"])
         elif name in ("sort", "lexsort"):
             r = rng.random()
             if r < 0.6 and not (meta["has_none"][k] and k == "taxa"):
@@ -926,6 +1000,8 @@ class Gen:
                 nk = rng.randint(1, 3)
                 st["keys"] = [None if rng.random() < 0.15 else [rng.randrange(0, 3) for _ in range(n)]
                               for _ in range(nk)]
+            if st["keys"] is not None and all(c is not None for c in st["keys"]) and rng.random() < 0.3:
+                st["keys_form"] = "ndarray2d"
             has_default = any(self.present[k][c] for c in {"taxa": [0, 1], "vrnt": [1, 0], "trait": [0]}[k])
             ok = has_default if st["keys"] is None else any(c is not None for c in st["keys"])
             st["expect_error"] = not ok
@@ -935,11 +1011,15 @@ class Gen:
             q = rng.choice([1, 1, 2, 2, 3])
             if len(d["taxa"]) > 2 and k == "taxa":
                 q = 1
-            rows = name in ("insert", "incorp")
+            rows = name in ("insert", "incorp") and not REPAIRED
             none_before = meta["has_none"][k]
             st["operand"] = self.operand(meta, k, q, rows)
             if name in ("insert", "incorp"):
+                ext = self.ext_ins
+                if REPAIRED and is_square_k(self.cname, k):
+                    self.ext_ins = False          # the repaired model takes the integer / sorted list / slice forms
                 st["obj"] = self.ins_obj(n, q, d[k][0] == 0)
+                self.ext_ins = ext
                 if "list" in st["obj"] and len(st["obj"]["list"]) > 1:
                     st["operand"] = self.operand(meta, k, len(st["obj"]["list"]), rows)
                     q = len(st["obj"]["list"])
@@ -963,7 +1043,7 @@ class Gen:
         elif name == "concat":
             qs = [rng.choice([1, 2]) for _ in range(rng.randint(1, 2))]
             none_before = meta["has_none"][k]
-            st["others"] = [self.operand(meta, k, q, True) for q in qs]
+            st["others"] = [self.operand(meta, k, q, not REPAIRED) for q in qs]
             st["_padded"] = meta["has_none"][k]
             meta["has_none"][k] = none_before
             new_len = n + sum(qs)
@@ -986,7 +1066,7 @@ CLASS_MIX = (["DensePhasedGenotypeMatrix"] * 5 + ["DenseGenotypeMatrix"] * 4 +
               "DenseTaxaTraitMatrix", "DenseSquareTaxaMatrix", "DenseMolecularCoancestryMatrix",
               "DenseMolecularCoancestryMatrix", "DenseSquareTaxaTraitMatrix", "DenseTaxaMatrix",
               "DenseBreedingValueMatrix", "DenseBreedingValueMatrix",
-              "DenseVariantMatrix", "DenseTraitMatrix",
+              "DenseVariantMatrix", "DenseTraitMatrix", "DenseSquareTraitMatrix",
               "DenseVanRadenCoancestryMatrix", "DenseTwoWayDHAdditiveGeneticVarianceMatrix",
               "DenseGenomicEstimatedBreedingValueMatrix",
               "DenseSquareTaxaTraitMatrix@4", "DenseThreeWayDHAdditiveGeneticVarianceMatrix",
@@ -1000,7 +1080,7 @@ def gen_big(rng):
     g = Gen(rng, cname, dup_labels=False)
     kinds = op_kinds_of(cname)
     big = rng.choice(kinds)
-    g.big = {big: rng.choice([130, 150, 200, 260, 300])}
+    g.big = {big: rng.choice([130, 150, 200, 260, 300] + ([1030, 1100] if rng.random() < 0.12 else []))}
     init = g.init_state()
     steps = []
     for _ in range(rng.randint(1, 4)):
@@ -1010,6 +1090,41 @@ def gen_big(rng):
             break
         steps.append(s)
     return {"kind": "hist", "cls": cname, "init": init, "steps": steps, "big": True}
+
+
+TWO_BUNDLE = ["DensePhasedGenotypeMatrix", "DenseGenotypeMatrix", "DenseTaxaVariantMatrix",
+              "DensePhasedTaxaVariantMatrix", "DenseTaxaTraitMatrix"]
+
+
+def gen_alias(rng):
+    """directed two-object histories on the classes with two label bundles: prime bundle k1 of object A (group /
+    is_grouped / lexsort), derive B by a NON-mutating operation along the OTHER bundle (B is handed A's k1 arrays and
+    k1 group metadata), then operate in place on k1 of B (or of A) — ungroup / group / sort / reorder / remove /
+    append — and query both again.  Every object stays alive; all are re-verified after every step."""
+    cname = rng.choice(TWO_BUNDLE)
+    g = Gen(rng, cname, dup_labels=rng.random() < 0.2)
+    kinds = kinds_of(cname)
+    k1 = rng.choice([k for k in kinds if k in GRP_ATTR])
+    k2 = rng.choice([k for k in kinds if k != k1])
+    # the grouping column of k1 must be there, or nothing is cached
+    g.present[k1][{"taxa": 1, "vrnt": 0}[k1]] = True
+    if k1 == "vrnt":
+        g.present[k1][1] = True
+    g.allow_pad = False
+    init = g.init_state()
+    steps = []
+    for _ in range(rng.randint(1, 2)):
+        steps.append(g.step(only_kind=k1, names=["group", "group", "is_grouped", "lexsort", "sort"], force_rid=0))
+    if not any(s["name"] == "group" for s in steps):
+        steps.append(g.step(only_kind=k1, names=["group"], force_rid=0))
+    steps.append(g.step(only_kind=k2, names=["select", "delete", "adjoin", "insert", "concat"], force_rid=0))
+    nb = len(g.objs) - 1
+    for _ in range(rng.randint(1, 3)):
+        who = nb if rng.random() < 0.7 else 0
+        steps.append(g.step(only_kind=k1, names=["ungroup", "group", "sort", "reorder", "remove", "append", "ungroup",
+                                                 "is_grouped"], force_rid=who))
+    steps.append(g.step(only_kind=k1, names=["is_grouped", "group", "lexsort"], force_rid=rng.choice([0, nb])))
+    return {"kind": "hist", "cls": cname, "init": init, "steps": steps, "alias": True}
 
 
 def gen_history(rng, cname=None, nsteps=None, dup=None, tiny=False):
@@ -1050,8 +1165,13 @@ def _trigger(cname, step, pre=None, present=None):
         pre = {kk: {"cols": [0 if p else None for p in present[kk]]} for kk in KINDS}
     d = CLASSES[cname]
     name, k = step["name"], step["kind"]
-    if is_square(cname) and k == "taxa" and name in ("insert", "incorp", "concat"):
-        return {"site": "square_insert_incorp_concat", "cond": "single_axis_edit"}
+    if REPAIRED:
+        return None
+    if is_square_k(cname, k) and name in ("insert", "incorp", "concat"):
+        return {"site": "square_insert_incorp_concat" if k == "taxa" else "square_trait_insert_incorp_concat",
+                "cond": "single_axis_edit"}
+    if (name in ("insert", "incorp") and "int0d" in step.get("obj", {}) and len(d[k]) == 1 and d[k][0] != 0):
+        return {"site": "insert_zero_dim_array_position", "cond": "non_leading_axis"}
     if (d.get("pure_drops_other") and name in ("select", "delete", "insert", "adjoin", "concat", "append", "remove",
                                                 "incorp")
             and (pre is None or any(c is not None for kk in KINDS if kk != k for c in pre[kk]["cols"]))):
@@ -1168,7 +1288,7 @@ def np_case(rng):
         q = rng.randint(1, 3)
         g = Gen(rng, "DenseTaxaMatrix")
         g.ext_ins = False              # the mask / unsorted forms have their own conformance kind (`insertx`)
-        o = g.ins_obj(n, q, True)
+        o = drv_obj(g.ins_obj(n, q, True))
         if "list" in o and len(o["list"]) > 1:
             q = len(o["list"])
         if "slice" in o:
@@ -1228,25 +1348,34 @@ def np_impl(case):
 class C03(Prop):
     PID = "C03"
     MODULE = "PybropsModel.Props.C03"
-    N_QUICK = 1200
-    N_THOROUGH = 6000
+    N_QUICK = 1050
+    N_THOROUGH = 5000
     CORRESPONDENCE = "functional"
     RULE = ("random histories (1-10 steps) over a HEAP of live objects — the initial object, every result of a "
             "non-mutating operation and every operand object stay alive; each step picks its receiver among them "
             "(70 % the newest) and after every step ALL live objects are read back and re-verified — of select / delete / "
             "insert / adjoin / concat / append / remove / incorp / reorder / lexsort / sort / group / ungroup / is_grouped "
-            "on 21 concrete classes: phased and unphased genotype, taxa-variant, taxa-trait, breeding-value and genomic "
+            "on 22 concrete classes: phased and unphased genotype, taxa-variant, taxa-trait, breeding-value and genomic "
             "EBV (raw values), square-taxa, two coancestry subclasses, square-taxa-trait and two-way variance (2 taxa "
             "axes), DenseSquareTaxaTraitMatrix built from a 4-D array, three-way and four-way variance matrices (3 / 4 "
-            "square taxa axes: N-D model), the three single-axis base classes; plus the three genotyping protocols on "
+            "square taxa axes: N-D model), the three single-axis base classes (their unlabelled second axis 1-3 long), "
+            "DenseSquareTraitMatrix (one trait bundle on two axes: a second copy of the square mechanism); directed "
+            "two-object ALIAS histories (prime bundle k1 of A by group / is_grouped / lexsort, derive B by a non-mutating "
+            "operation along the other bundle, operate in place on k1 of B or A, query both); plus the three genotyping protocols on "
             "(un)grouped phased matrices with and without a variant mask, followed by in-place operations on the output "
             "or the input (aliasing).  Axis-specific and axis-generic forms (negative axes included); index forms int / "
-            "list / tuple / int64 / int32 ndarray / slice / boolean mask with negative entries, numpy.insert positions "
-            "also as boolean ndarray and as UNSORTED list; operands passed as raw arrays + label keywords, as matrix "
+            "list / tuple / int64 / int32 / int16 / uint8 ndarray / numpy integer scalar / list of numpy integers / slice / "
+            "boolean ndarray / plain list of booleans, with negative entries; numpy.insert positions "
+            "also as boolean ndarray, as UNSORTED list and (rarely: finding D17b) as 0-d ndarray; sort keys as tuple or as "
+            "one (k, N) ndarray; axis-generic calls also WITHOUT the axis keyword when the last axis is meant (default -1); "
+            "operands passed as raw arrays + label keywords, as matrix "
             "objects carrying the labels, or as matrix objects carrying OTHER labels (or none) that explicit label keywords "
             "must override; C / Fortran-ordered / non-contiguous (strided) input arrays; unique cell codes, unique or "
             "deliberately duplicated names, small group / position ranges (ties), random presence pattern of the optional "
-            "label columns, shapes down to 1, a few histories with one axis of 130-300 entries.  Non-trivial = a history "
+            "label columns, shapes down to 1, a few histories with one axis of 130-300 (rarely 1030 / 1100) entries.  Values "
+            "are rendered so that a narrowing cast shows: float64 cells = code + 2^-30, float labels = code/8 (/64) + 2^-40, "
+            "int64 cells and integer labels offset by 3e9 .. 7e9, names of varying length.  Growing a square matrix must "
+            "put the fill value into the cross blocks ONLY (fill-count balance).  Non-trivial = a history "
             "with >= 2 executed steps of which at least one permutes or edits an axis of length >= 2")
     TRUSTED = ["numpy.take/delete/insert/append/concatenate/lexsort/unique as modelled in Model/LabelMat.lean, "
                "LabelMatN.lean, LabelMatX.lean (index normalisers, slices, the scalar-position moveaxis/broadcast rule, the "
@@ -1281,12 +1410,38 @@ class C03(Prop):
                    "attachment / consistency / partition Spec against its own earlier state (spec) and by exact equality "
                    "(corr); the receiver and the operand objects of a non-mutating operation by exact equality (spec), as "
                    "the property states",
-                   "progeny covariance matrices (square taxa AND square trait axes, DenseSquareTaxaSquareTraitMatrix) are "
-                   "not exercised"]
+                   "progeny covariance matrices (square taxa AND square trait axes, DenseSquareTaxaSquareTraitMatrix: 4-D / 5-D with two "
+                   "square bundles, outside both the 3-level and the N-D model) are not exercised",
+                   "label arrays are handed over in the dtypes the constructors document (int64 / float64 / object / bool); an "
+                   "integer label array of a narrower dtype in the receiver makes numpy.insert cast the inserted labels to it "
+                   "(silent wrap-around, numpy semantics) — not driven",
+                   "C03_REPAIRED=1 switches to repair-validation mode (tree with patches/C03_D14_D27.diff, patch_D14b.diff, "
+                   "patch_D17b.diff applied): block-shaped operands for the square insert / incorp / concat, the repaired model "
+                   "of Model/LabelMatRepair.lean, no known finding consulted; never set in a normal run"]
 
 
     # ------------------------------------------------------------------ cases
     def corpus(self):
+        cases = self._corpus()
+        if REPAIRED:
+            # the witnesses of D14 / D14b hand ROW-shaped operands to the single-axis methods the repair replaces
+            cases = [c for c in cases if c.get("finding") not in ("D14", "D14b")]
+            # block-shaped operands for the repaired square insert / incorp / concat
+            sq = {"mat": [[[0], [1], [2]], [[3], [4], [5]], [[6], [7], [8]]],
+                  "taxa": {"cols": [[0, 1, 2], [1, 2, 1]], "grp": None},
+                  "vrnt": empty_bundle("vrnt"), "trait": empty_bundle("trait")}
+            S = lambda **kw: dict({"generic": False, "axis": 0, "alt_axis": 0}, **kw)
+            cases.append({"kind": "hist", "cls": "DenseMolecularCoancestryMatrix", "init": sq,
+                          "steps": [S(name="insert", kind="taxa", obj={"int": 1}, form="raw",
+                                      operand={"mat": [[[100]]], "cols": [[9], [5]]}),
+                                    S(name="incorp", kind="taxa", obj={"list": [0, 2]}, form="raw", on=0,
+                                      operand={"mat": [[[200], [201]], [[202], [203]]], "cols": [[10, 11], [3, 3]]}),
+                                    S(name="concat", kind="taxa", on=0,
+                                      others=[{"mat": [[[300]]], "cols": [[12], [1]]}]),
+                                    S(name="group", kind="taxa", on=0)]})
+        return cases
+
+    def _corpus(self):
         P = "DensePhasedGenotypeMatrix"
         G = "DenseGenotypeMatrix"
         full_t = [[0, 1, 2, 3], [2, 1, 2, 1]]
@@ -1542,6 +1697,70 @@ class C03(Prop):
                        S(name="remove", kind="taxa", obj={"slice": [None, 200, None]}, on=0),
                        S(name="sort", kind="taxa", keys=None, on=0),
                        S(name="is_grouped", kind="taxa", on=0)]},
+            # ---- an axis longer than 1024 entries (chunk-size constants), unlabelled second axis of length 2
+            {"kind": "hist", "cls": "DenseVariantMatrix", "big": True,
+             "init": {"mat": [[[i]] for i in range(1030)],
+                      "taxa": empty_bundle("taxa"),
+                      "vrnt": {"cols": v9([1 + (i * 7) % 3 for i in range(1030)], [(i * 13) % 50 for i in range(1030)]),
+                               "grp": None},
+                      "trait": empty_bundle("trait")},
+             "steps": [S(name="reorder", kind="vrnt", indices=list(range(1029, -1, -1))),
+                       S(name="select", kind="vrnt", indices=[1029, 1023, 1024, 1025, 0, -1, 512, 2], as_array="int16"),
+                       S(name="remove", kind="vrnt", obj={"npint": 1024, "dtype": "int32"}, on=0),
+                       S(name="group", kind="vrnt", on=0)]},
+            # ---- the single-bundle base classes with an UNLABELLED second axis of length 2 / 3 (square shapes on purpose)
+            {"kind": "hist", "cls": "DenseTraitMatrix",
+             "init": {"mat": [[[0], [1]], [[2], [3]]], "taxa": empty_bundle("taxa"), "vrnt": empty_bundle("vrnt"),
+                      "trait": {"cols": [[1, 0]], "grp": None}},
+             "steps": [S(name="reorder", kind="trait", indices=[1, 0]),
+                       S(name="select", kind="trait", indices=[1, 1, 0], on=0),
+                       S(name="sort", kind="trait", keys=None, generic=True, axis=-2, alt_axis=-2, on=0),
+                       S(name="incorp", kind="trait", obj={"npint": 1, "dtype": "int32"}, form="raw", on=0,
+                         operand={"mat": [[[10], [11]]], "cols": [[7]]}),
+                       S(name="remove", kind="trait", obj={"boollist": [True, False, False]}, on=0)]},
+            {"kind": "hist", "cls": "DenseTaxaMatrix",
+             "init": {"mat": [[[0], [1], [2]], [[3], [4], [5]], [[6], [7], [8]]],
+                      "taxa": {"cols": [[2, 0, 1], [2, 1, 2]], "grp": None}, "vrnt": empty_bundle("vrnt"),
+                      "trait": empty_bundle("trait")},
+             "steps": [S(name="group", kind="taxa"),
+                       S(name="delete", kind="taxa", obj={"npint": -1, "dtype": "int64"}),
+                       S(name="reorder", kind="taxa", indices=[2, 0, 1], on=0),
+                       S(name="adjoin", kind="taxa", form="obj", on=0,
+                         operand={"mat": [[[20], [21], [22]]], "cols": [[9], [1]]}),
+                       S(name="sort", kind="taxa", keys=[[1, 0, 1], [0, 1, 1]], keys_form="ndarray2d", on=0)]},
+            {"kind": "hist", "cls": "DenseVariantMatrix",
+             "init": {"mat": [[[0], [1], [2]], [[3], [4], [5]], [[6], [7], [8]]], "taxa": empty_bundle("taxa"),
+                      "vrnt": {"cols": v9([2, 1, 2], [7, 5, 3], [0, 1, 2], [9, 8, 7], [3, 2, 1]), "grp": None},
+                      "trait": empty_bundle("trait")},
+             "steps": [S(name="group", kind="vrnt"),
+                       S(name="select", kind="vrnt", indices=[2, 0], as_array="uint8"),
+                       S(name="insert", kind="vrnt", obj={"list": [1]}, form="raw", on=0,
+                         operand={"mat": [[[30], [31], [32]]], "cols": v9([1], [4], [50], [6], [5])}),
+                       S(name="remove", kind="vrnt", obj={"slice": [None, None, 2]}, on=0)]},
+            # ---- square TRAIT bundle (DenseSquareTraitMatrix: own copy of the square mechanism)
+            {"kind": "hist", "cls": "DenseSquareTraitMatrix",
+             "init": {"mat": [[[0], [1], [2]], [[3], [4], [5]], [[6], [7], [8]]], "taxa": empty_bundle("taxa"),
+                      "vrnt": empty_bundle("vrnt"), "trait": {"cols": [[2, 0, 1]], "grp": None}},
+             "steps": [S(name="select", kind="trait", indices=[2, 0]),
+                       S(name="sort", kind="trait", keys=None, on=0),
+                       S(name="adjoin", kind="trait", form="raw", operand={"mat": [[[70]]], "cols": [[9]]}, on=0),
+                       S(name="remove", kind="trait", obj={"int": 0}, generic=True, axis=-1, alt_axis=-1, on=0),
+                       S(name="reorder", kind="trait", indices=[1, 0], generic=True, axis=1, alt_axis=1, on=0)]},
+            # D17b: a 0-d ndarray position on a non-leading axis is not wrapped (fix 74ad0b65 tests int / numpy.integer only)
+            {"kind": "hist", "cls": P, "init": pinit, "finding": "D17b",
+             "steps": [S(name="insert", kind="taxa", obj={"int0d": 1}, operand=opd_t2, axis=1, alt_axis=-2, form="raw")]},
+            # ... on the leading axis the scalar rule is the block insert: fine
+            {"kind": "hist", "cls": G, "init": ginit,
+             "steps": [S(name="insert", kind="taxa", obj={"int0d": 1}, form="raw",
+                         operand={"mat": [[[50], [51], [52]], [[53], [54], [55]]], "cols": [[50, 51], [3, 3]]}),
+                       S(name="incorp", kind="taxa", obj={"int0d": -1}, form="raw", on=0,
+                         operand={"mat": [[[60], [61], [62]]], "cols": [[60], [2]]})]},
+            # D14b: the square trait class edits one of its two trait axes only
+            {"kind": "hist", "cls": "DenseSquareTraitMatrix", "finding": "D14b",
+             "init": {"mat": [[[0], [1], [2]], [[3], [4], [5]], [[6], [7], [8]]], "taxa": empty_bundle("taxa"),
+                      "vrnt": empty_bundle("vrnt"), "trait": {"cols": [[2, 0, 1]], "grp": None}},
+             "steps": [S(name="incorp", kind="trait", obj={"list": [1]}, form="raw",
+                         operand={"mat": [[[100], [101], [102]]], "cols": [[9]]})]},
             # ---- genotyping hands the input's label arrays (without a mask: the data too) to the output
             {"kind": "gt", "proto": "masked_phased", "invert": False,
              "init": dict(pinit, vrnt={"cols": v9([2, 1, 1], [5, 7, 6]), "grp": None}), "prep": [],
@@ -1568,6 +1787,8 @@ class C03(Prop):
                 out.append(gen_gt(rng))
             elif r < 0.215:
                 out.append(gen_big(rng))
+            elif r < 0.27:
+                out.append(gen_alias(rng))
             else:
                 out.append(gen_history(rng))
         return out
@@ -1642,14 +1863,17 @@ class C03(Prop):
 
     # ------------------------------------------------------------------ model requests
     @staticmethod
-    def _drv_step(step):
+    def _drv_step(step, heap=False, cname=None):
         d = {"name": step["name"], "kind": step["kind"], "generic": bool(step.get("generic")),
              "axis": step.get("axis", 0), "fill": NAN_CODE, "none_code": NONE_CODE}
+        if (REPAIRED and cname is not None and is_square_k(cname, step["kind"])
+                and step["name"] in ("insert", "incorp", "concat")):
+            d["repaired"] = True
         for key in ("indices", "keys", "operand"):
             if key in step:
                 d[key] = step[key]
         if "obj" in step:
-            d["obj"] = drv_obj(step["obj"])
+            d["obj"] = drv_obj(step["obj"], heap)
         return d
 
     def requests(self, case, obs):
@@ -1672,7 +1896,8 @@ class C03(Prop):
         sch = schema(cname)
         axes = {kk: CLASSES[cname][kk] for kk in KINDS}
         nd = is_nd(cname)
-        ndkw = {"r": len(CLASSES[cname]["taxa"]), "pure_drops_other": bool(CLASSES[cname].get("pure_drops_other"))}
+        ndkw = {"r": len(CLASSES[cname]["taxa"]),
+                "pure_drops_other": bool(CLASSES[cname].get("pure_drops_other")) and not REPAIRED}
 
         def step_req(pre, d):
             if nd:
@@ -1686,7 +1911,7 @@ class C03(Prop):
 
         reqs = []
         for step, rec in zip(case["steps"], obs["steps"]):
-            d = self._drv_step(step)
+            d = self._drv_step(step, cname=cname)
             pre = rec["pre"]
             prex = dict(pre, _axes=axes)
             k = step["kind"]
@@ -1700,7 +1925,7 @@ class C03(Prop):
                 if step["name"] == "concat":
                     operands = [self._operand_state(prex, k, o, pad=True) for o in step["others"]]
                 # growing a square matrix leaves cross blocks that no operand supplies: the class's fill value
-                fill = NAN_CODE if (is_square(cname) and k == "taxa" and step["name"] in
+                fill = NAN_CODE if (is_square_k(cname, k) and step["name"] in
                                     ("adjoin", "append", "insert", "incorp", "concat")) else None
                 reqs.append(spec_req(pre, operands, rec["post"], fill))
             # objects the step did not operate on, but whose public state differs from the one last verified:
@@ -1708,11 +1933,11 @@ class C03(Prop):
             for ch in rec.get("changed", []):
                 if isinstance(ch["after"], dict) and "unreadable" not in ch["after"]:
                     reqs.append(spec_req(ch["before"], [], ch["after"], None))
-        if not nd and obs["steps"]:
+        if not nd and obs["steps"] and not REPAIRED:
             # the heap / aliasing model on the whole history: which arrays the live objects share after every step
             hs = []
             for step, rec in zip(case["steps"], obs["steps"]):
-                d = self._drv_step(step)
+                d = self._drv_step(step, heap=True)
                 d["on"] = rec["on"]
                 d["skip"] = bool(rec.get("error")) or "unreadable" in rec
                 if step["name"] == "concat":
@@ -1908,7 +2133,7 @@ class C03(Prop):
                                f"input_unchanged={obs['input_unchanged']}" + alias_detail
                                + ("" if corr else f" model={str(m)[:300]} impl={str(obs['post'])[:300]}"))}
         heap_ok, heap_detail = True, ""
-        if not is_nd(case["cls"]) and obs["steps"]:
+        if not is_nd(case["cls"]) and obs["steps"] and not REPAIRED:
             heap_ok, heap_detail = self._heap_verdict(case, obs, answers[-1])
             answers = answers[:-1]
         sv = self._judge_steps(case, obs, answers)
@@ -1932,6 +2157,10 @@ class C03(Prop):
         if spec and not heap_ok:
             corr = False
             detail.append(heap_detail)
+        if "created" in obs:
+            spec = corr = False
+            detail.insert(0, "the freshly constructed object does not carry the data / labels it was created with: "
+                          + str(obs["created"])[:300])
         executed = [s for s, r in zip(case["steps"], obs["steps"]) if not r.get("error")]
         nontriv = len(executed) >= 2 and any(
             s["name"] in ("select", "delete", "remove", "reorder", "sort", "group", "insert", "incorp", "adjoin",
@@ -1948,7 +2177,7 @@ class C03(Prop):
             return sig
         try:
             ans = verdict["answers"]
-            if not is_nd(case["cls"]) and obs["steps"]:
+            if not is_nd(case["cls"]) and obs["steps"] and not REPAIRED:
                 ans = ans[:-1]
             sv = self._judge_steps(case, obs, ans)
         except Exception:
@@ -2234,7 +2463,114 @@ class C03(Prop):
             if self._vrnt_phypos is not None:
                 self._vrnt_phypos = self._vrnt_phypos.astype("int32").astype("int64")
 
+        # ---- round 4: value magnitudes / dtypes, second copy of the square mechanism, in-place writes on shared
+        #      metadata, sizes past 1024, numpy-scalar index forms, default axis, fill value in data blocks
+        from pybrops.core.mat.DenseSquareTraitMatrix import DenseSquareTraitMatrix
+        DenseVariantMatrix_insert_vrnt = DenseVariantMatrix.__dict__["insert_vrnt"]
+        DenseSquareTraitMatrix_select_trait = DenseSquareTraitMatrix.__dict__["select_trait"]
+        DenseTaxaMatrix_ungroup_taxa = DenseTaxaMatrix.__dict__["ungroup_taxa"]
+        DenseTaxaMatrix_delete_taxa = DenseTaxaMatrix.__dict__["delete_taxa"]
+        DenseSquareTaxaMatrix_adjoin_taxa = DenseSquareTaxaMatrix.__dict__["adjoin_taxa"]
+        DenseTraitMatrix_reorder_trait = DenseTraitMatrix.__dict__["reorder_trait"]
+        DenseTaxaMatrix_lexsort_taxa = DenseTaxaMatrix.__dict__["lexsort_taxa"]
+        DenseTaxaVariantMatrix_sort = DenseTaxaVariantMatrix.__dict__["sort"]
+
+        def adjoin_taxa_data_through_float32(self, values, taxa=None, taxa_grp=None, **kwargs):
+            out = DenseTaxaMatrix_adjoin_taxa(self, values, taxa=taxa, taxa_grp=taxa_grp, **kwargs)
+            if out._mat.dtype == numpy.float64:
+                out._mat = out._mat.astype("float32").astype("float64")
+            elif out._mat.dtype == numpy.int64:
+                out._mat = out._mat.astype("int32").astype("int64")
+            return out
+
+        def insert_vrnt_genpos_through_float32(self, obj, values, **kwargs):
+            out = DenseVariantMatrix_insert_vrnt(self, obj, values, **kwargs)
+            if out._vrnt_genpos is not None:
+                out._vrnt_genpos = out._vrnt_genpos.astype("float32").astype("float64")
+            return out
+
+        def square_trait_select_second_axis_sorted(self, indices, **kwargs):
+            out = DenseSquareTraitMatrix_select_trait(self, indices, **kwargs)
+            ix = numpy.asarray(indices) % self._mat.shape[1]
+            out._mat = self._mat[numpy.ix_(ix, numpy.sort(ix))]
+            return out
+
+        def ungroup_taxa_zeroes_metadata_in_place(self, **kwargs):
+            if self._taxa_grp_len is not None:
+                self._taxa_grp_len[...] = 0
+                self._taxa_grp_spix[...] = self._taxa_grp_stix
+            DenseTaxaMatrix_ungroup_taxa(self, **kwargs)
+
+        def reorder_vrnt_second_chunk_past_1024(self, indices, **kwargs):
+            old = self._vrnt_phypos
+            DenseVariantMatrix_reorder_vrnt(self, indices, **kwargs)
+            if old is not None and len(old) > 1024:
+                ind = numpy.asarray(indices)
+                self._vrnt_phypos = numpy.concatenate([old[ind[:1024]], old[ind[1023:-1]]])
+
+        def tv_sort_default_axis_zero(self, keys=None, axis=0, **kwargs):
+            DenseTaxaVariantMatrix_sort(self, keys=keys, axis=axis, **kwargs)
+
+        def square_adjoin_operand_block_left_unfilled(self, values, taxa=None, taxa_grp=None, **kwargs):
+            out = DenseSquareTaxaMatrix_adjoin_taxa(self, values, taxa=taxa, taxa_grp=taxa_grp, **kwargs)
+            n = self.ntaxa
+            ix = tuple(slice(n, None) if a in self.square_taxa_axes else slice(None) for a in range(out._mat.ndim))
+            out._mat[ix] = numpy.nan
+            return out
+
+        DenseSquareTaxaMatrix_append_taxa = DenseSquareTaxaMatrix.__dict__["append_taxa"]
+
+        def square_append_operand_block_left_unfilled(self, values, taxa=None, taxa_grp=None, **kwargs):
+            n = self.ntaxa
+            DenseSquareTaxaMatrix_append_taxa(self, values, taxa=taxa, taxa_grp=taxa_grp, **kwargs)
+            ix = tuple(slice(n, None) if a in self.square_taxa_axes else slice(None) for a in range(self._mat.ndim))
+            self._mat[ix] = numpy.nan
+
+        def delete_taxa_numpy_scalar_taken_for_sequence(self, obj, **kwargs):
+            if not isinstance(obj, (int, slice)):
+                obj = [i for i in obj]            # a numpy integer scalar is not iterable
+            return DenseTaxaMatrix_delete_taxa(self, obj, **kwargs)
+
+        def reorder_trait_also_along_unlabelled_axis(self, indices, **kwargs):
+            DenseTraitMatrix_reorder_trait(self, indices, **kwargs)
+            m = self._mat
+            if type(self) is DenseTraitMatrix and m.ndim == 2 and m.shape[0] == m.shape[1]:
+                self._mat = m[:, numpy.asarray(indices)]
+
+        taxa_grp_prop = DenseTaxaMatrix.__dict__["taxa_grp"]
+        taxa_grp_sorted_on_assignment = property(
+            taxa_grp_prop.fget,
+            lambda self, value: taxa_grp_prop.fset(self, None if value is None else numpy.sort(value)),
+            taxa_grp_prop.fdel)
+
+        def lexsort_taxa_rejects_key_matrix(self, keys=None, **kwargs):
+            if isinstance(keys, numpy.ndarray):
+                raise TypeError("keys must be a tuple")
+            return DenseTaxaMatrix_lexsort_taxa(self, keys, **kwargs)
+
         return [
+            ("adjoin_taxa_data_through_float32_or_int32",
+             lambda: patch(DenseTaxaMatrix, "adjoin_taxa", adjoin_taxa_data_through_float32)),
+            ("insert_vrnt_map_positions_through_float32",
+             lambda: patch(DenseVariantMatrix, "insert_vrnt", insert_vrnt_genpos_through_float32)),
+            ("square_trait_select_second_axis_sorted",
+             lambda: patch(DenseSquareTraitMatrix, "select_trait", square_trait_select_second_axis_sorted)),
+            ("ungroup_taxa_zeroes_shared_metadata_in_place",
+             lambda: patch(DenseTaxaMatrix, "ungroup_taxa", ungroup_taxa_zeroes_metadata_in_place)),
+            ("reorder_vrnt_positions_second_chunk_past_1024",
+             lambda: patch(DenseVariantMatrix, "reorder_vrnt", reorder_vrnt_second_chunk_past_1024)),
+            ("generic_sort_default_axis_zero", lambda: patch(DenseTaxaVariantMatrix, "sort", tv_sort_default_axis_zero)),
+            ("square_adjoin_operand_block_left_as_fill_value",
+             lambda: patch2(DenseSquareTaxaMatrix, "adjoin_taxa", square_adjoin_operand_block_left_unfilled,
+                            "append_taxa", square_append_operand_block_left_unfilled)),
+            ("delete_taxa_numpy_integer_scalar_taken_for_sequence",
+             lambda: patch(DenseTaxaMatrix, "delete_taxa", delete_taxa_numpy_scalar_taken_for_sequence)),
+            ("reorder_trait_also_permutes_unlabelled_axis",
+             lambda: patch(DenseTraitMatrix, "reorder_trait", reorder_trait_also_along_unlabelled_axis)),
+            ("taxa_grp_setter_stores_sorted_copy",
+             lambda: patch(DenseTaxaMatrix, "taxa_grp", taxa_grp_sorted_on_assignment)),
+            ("lexsort_taxa_rejects_key_matrix",
+             lambda: patch(DenseTaxaMatrix, "lexsort_taxa", lexsort_taxa_rejects_key_matrix)),
             ("append_taxa_names_cut_to_fixed_width",
              lambda: patch(DenseTaxaMatrix, "append_taxa", append_taxa_fixed_width_names)),
             ("reorder_vrnt_positions_through_int32",
